@@ -65,11 +65,12 @@ def main():
             shutil.rmtree(wt2, ignore_errors=True)
     dst = os.path.join(ROOT, 'seeded', mid)
     os.makedirs(dst, exist_ok=True)
-    shutil.copy(patch, os.path.join(dst, 'patch.diff'))
-    shutil.copy(demo, os.path.join(dst, 'demo.py'))
-    notes = os.path.join(src, 'notes.md')
-    if os.path.exists(notes):
-        shutil.copy(notes, os.path.join(dst, 'notes.md'))
+    if os.path.realpath(src) != os.path.realpath(dst):
+        shutil.copy(patch, os.path.join(dst, 'patch.diff'))
+        shutil.copy(demo, os.path.join(dst, 'demo.py'))
+        notes = os.path.join(src, 'notes.md')
+        if os.path.exists(notes):
+            shutil.copy(notes, os.path.join(dst, 'notes.md'))
     meta_p = os.path.join(dst, 'meta.json')
     meta = json.load(open(meta_p)) if os.path.exists(meta_p) else {}
     meta.update({'id': mid, 'property': prop, 'confirmed': confirmed, 'confirmation': ran,
